@@ -107,6 +107,9 @@ func H_C12_onchangemap() {
 					verifrt.Cover("modify")
 				}
 				verifrt.Assert(got != nil && got.val == mv[i], "OnChangeMap.Modify returned a stale item")
+				if got != nil {
+					got.val++ // "returns a copy": writing to it must not reach the store (checked by the next Get/Modify)
+				}
 				if enabled && change {
 					verifrt.Assert(len(modified) == nm+1 && modified[nm] == k, "OnChangeMap.Modify: the modified-callback does not mirror the change")
 					verifrt.Assert((err != nil) == failNext, "OnChangeMap.Modify: callback error not propagated")
